@@ -542,11 +542,17 @@ def _expand_combinators(facts, w, stack, budget):
                     item = _fnitem_of_local(w, (a.get("move") or a.get("copy"))["l"])
                 if item is not None:
                     ct = _ctor_of(facts, item)
-                    if ct is None or not act[2]:
-                        ok = False
-                        break
-                    fns[act[1]] = ("ctor", ct)
-                    continue
+                    if ct is not None and act[2]:
+                        fns[act[1]] = ("ctor", ct)
+                        continue
+                    # a function of this crate passed by name (`.unwrap_or_else(far_future)`): a plain call in the arm
+                    hb_ = facts.bodies.get(item.get("def") or "")
+                    if ct is None and hb_ is not None and hb_.crate is body.crate and hb_.kind == "fn" and hb_.arg_count == (1 if act[2] else 0):
+                        fty_ = a["const"]["ty"] if "const" in a else w.locals[(a.get("move") or a.get("copy"))["l"]]["ty"]
+                        fns[act[1]] = ("fnitem", (item, fty_))
+                        continue
+                    ok = False
+                    break
                 r = _inlinable_closure(facts, w, stack, budget - extra, a)
                 if r is None or r[0].arg_count != (2 if act[2] else 1):
                     ok = False
@@ -599,6 +605,12 @@ def _expand_combinators(facts, w, stack, budget):
                 nb["stmts"].append({"k": "assign", "lhs": out_place, "rv": {"k": "agg", "ak": "adt", "def": adt_def, "variant": vname, "vi": vi,
                                                                           "fields": [fname], "ops": [payload_op]}, "span": span})
                 return cur
+            if kind == "fnitem":
+                item_, fty_ = what
+                cont = new_block()
+                nb["term"] = {"k": "call", "func": {"const": {"ty": fty_, "fn": item_}}, "args": [payload_op] if act[2] else [],
+                              "dest": out_place, "target": cont, "unwind": unwind, "span": span}
+                return cont
             cont = new_block()
             base, pre = _inline_closure(w, what, t["args"][act[1]], [payload_op] if act[2] else [], out_place, cont, unwind, span, fn)
             nb["stmts"] += pre
